@@ -158,12 +158,26 @@ static void emit_header(LHAReader *r, LHAFileHeader *h)
 
 #define MAXCB 64
 static unsigned cbn, cbfirst[2], cblast[2], cbbad;
+/* Output cap: a check/extract of a member that declares an enormous length (and really decodes that far: -pm1- is
+ * implicitly endless) is bounded work, but too much of it for a test case.  Once the progress callback shows that
+ * more than outcap bytes have been produced the case is abandoned ("OUTCAP"): so far the work was proportional to the
+ * output, which is all the step budget asks; nothing else is concluded from such a case. */
+static uint64_t outcap = 64u << 20;
+/* the paths without a progress callback are exercised on every member of ordinary size; one that declares more than the
+ * cap gets the callback after all, because the callback is the only place from which the case can be abandoned */
+#define BIGMEMBER(h) ((h) != NULL && (uint64_t) (h)->length > outcap)
+static LHAFileHeader *cap_hdr;
+static double outcap_done;
 static void progress_cb(unsigned int num, unsigned int tot, void *u)
 {
 	(void) u;
 	if (cbn == 0) { cbfirst[0] = num; cbfirst[1] = tot; }
 	else if (num != cblast[0] + 1 || tot != cblast[1]) ++cbbad;
 	cblast[0] = num; cblast[1] = tot; ++cbn;
+	if (budget_armed && cap_hdr != NULL && tot > 0 && num <= tot) {
+		outcap_done = (double) cap_hdr->length * num / tot;
+		if (outcap_done > (double) outcap) { budget_armed = 0; longjmp(budget_jmp, 2); }
+	}
 }
 
 static uint8_t *filedata; static size_t filelen, filepos;
@@ -202,6 +216,7 @@ int main(int argc, char **argv)
 	out = fopen(argv[2], "wb"); if (!out) return 2;
 	mfd = open(argv[3], O_WRONLY | O_CREAT, 0644); if (mfd < 0) return 2;
 	workdir = argv[4];
+	if (getenv("VERIF_OUTCAP_MB")) outcap = (uint64_t) atol(getenv("VERIF_OUTCAP_MB")) << 20;
 
 	for (;;) {
 		uint32_t magic, id, kind, policy, flags, fail_at, nops, alen, i, (*ops)[2];
@@ -250,11 +265,15 @@ int main(int argc, char **argv)
 		cur_src = (kind <= 1 || kind == 4) ? &src : NULL;
 		allocmon_step_hook = file_step;
 		budget_armed = 1;
-		if (setjmp(budget_jmp) != 0) {
-			LEAVE();
-			fprintf(out, "BUDGET reads=%lu skips=%lu bytes=%lu budget=%llu\n", src.reads, src.skips, src.bytes, (unsigned long long) budget);
-			aborted = 1;
-			goto finish;
+		{
+			int why = setjmp(budget_jmp);
+			if (why != 0) {
+				LEAVE();
+				if (why == 2) fprintf(out, "OUTCAP produced=%.0f callbacks=%u\n", outcap_done, cbn);
+				else fprintf(out, "BUDGET reads=%lu skips=%lu bytes=%lu budget=%llu\n", src.reads, src.skips, src.bytes, (unsigned long long) budget);
+				aborted = 1;
+				goto finish;
+			}
 		}
 
 		ENTER();
@@ -290,14 +309,14 @@ int main(int argc, char **argv)
 				break; }
 			case 3: case 7: {
 				int res;
-				cbn = 0; cbbad = 0;
-				ENTER(); res = lha_reader_check(reader, op == 3 ? progress_cb : NULL, NULL); LEAVE();
+				cbn = 0; cbbad = 0; cap_hdr = cur;
+				ENTER(); res = lha_reader_check(reader, (op == 3 || BIGMEMBER(cur)) ? progress_cb : NULL, NULL); LEAVE();
 				fprintf(out, "CHECK result=%d ncb=%u first=%u/%u last=%u/%u bad=%u\n", res, cbn, cbfirst[0], cbfirst[1], cblast[0], cblast[1], cbbad);
 				break; }
 			case 4: case 5: {
 				int res; char name[64]; char *fn = NULL;
 				if (op == 5 || !(flags & 2)) { snprintf(name, sizeof name, "out_%u", i); fn = name; }
-				cbn = 0; cbbad = 0;
+				cbn = 0; cbbad = 0; cap_hdr = cur;
 				ENTER(); res = lha_reader_extract(reader, fn, progress_cb, NULL); LEAVE();
 				fprintf(out, "EXTRACT result=%d named=%d ncb=%u\n", res, fn != NULL, cbn);
 				break; }
@@ -309,11 +328,12 @@ int main(int argc, char **argv)
 					if (!cur || ++guard > 100000) break;
 					if (arg == 1) { uint8_t one[1]; size_t n; ENTER(); n = lha_reader_read(reader, one, 1); LEAVE(); emit_data("READ", one, n, 1); }
 					else if (arg == 2) { uint8_t *b; size_t n = do_readall(reader, &b, 64u << 20); emit_data("READALL", b, n, flags & 1); free(b); }
-					else if (arg == 3) { int res; cbn = 0; cbbad = 0; ENTER(); res = lha_reader_check(reader, progress_cb, NULL); LEAVE();
+					else if (arg == 3) { int res; cbn = 0; cbbad = 0; cap_hdr = cur; ENTER(); res = lha_reader_check(reader, progress_cb, NULL); LEAVE();
 						fprintf(out, "CHECK result=%d ncb=%u first=%u/%u last=%u/%u bad=%u\n", res, cbn, cbfirst[0], cbfirst[1], cblast[0], cblast[1], cbbad); }
 					else if (arg == 4) { int res; char name[64]; char *fn = NULL;
 						if (!(flags & 2)) { snprintf(name, sizeof name, "out_%lu", guard); fn = name; }
-						ENTER(); res = lha_reader_extract(reader, fn, NULL, NULL); LEAVE();
+						cap_hdr = cur;
+						ENTER(); res = lha_reader_extract(reader, fn, BIGMEMBER(cur) ? progress_cb : NULL, NULL); LEAVE();
 						fprintf(out, "EXTRACT result=%d named=%d ncb=0\n", res, fn != NULL); }
 				}
 				break; }
